@@ -90,8 +90,10 @@ func layer2Case(env *vlib.Env, idx int, rep *vlib.Reporter) {
 			s.kind = 'V'
 		case r < 55:
 			s.kind = 'W'
-		case r < 65:
+		case r < 62:
 			s.kind = 'X'
+		case r < 65:
+			s.kind = 'D' // the sender's valid share for I followed by a second entry for I that is junk
 		case r < 80:
 			s.kind = 'P'
 			s.poisonK = "WXGE"[rng.Intn(4)]
@@ -104,7 +106,7 @@ func layer2Case(env *vlib.Env, idx int, rep *vlib.Reporter) {
 		default:
 			s.kind = 'V'
 		}
-		if s.kind == 'V' || s.kind == 'W' || s.kind == 'X' {
+		if s.kind == 'V' || s.kind == 'W' || s.kind == 'X' || s.kind == 'D' {
 			if s.sender == self {
 				// a node never receives its own gossip message; its own share enters by the trigger
 				s.sender = (self + 1) % n
@@ -135,6 +137,11 @@ func layer2Case(env *vlib.Env, idx int, rep *vlib.Reporter) {
 			list = ids
 		}
 		m := &p2pmsg.DecryptionKeyShares{InstanceId: w.InstanceID, Eon: uint64(eon), KeyperIndex: uint64(s.sender)}
+		if s.kind == 'D' {
+			m.Shares = append(m.Shares, &p2pmsg.KeyShare{IdentityPreimage: idI, Share: w.Eon.Share(s.sender, idI).Marshal()},
+				&p2pmsg.KeyShare{IdentityPreimage: idI, Share: other.Share(s.sender, idI).Marshal()})
+			return gossipnet.MustMarshal(m)
+		}
 		for _, id := range list {
 			var sh *shcrypto.EpochSecretKeyShare
 			switch s.kind {
